@@ -23,6 +23,8 @@ mod definition;
 mod expr_or_stmt;
 mod expression;
 mod lex;
+#[cfg(mamba_verif)]
+pub mod verif_lex;
 mod operation;
 mod statement;
 mod ty;
@@ -40,6 +42,8 @@ impl FromStr for AST {
             })
             .map_err(ParseErr::from)?;
 
+        #[cfg(mamba_verif)]
+        crate::verif_hooks::count("tokens", tokens.len() as u64);
         let mut iterator = LexIterator::new(tokens.iter().peekable());
         let statements = block::parse_statements(&mut iterator)?;
         if iterator.peek_if(&|lex| lex.token != Token::Eof) {
